@@ -625,6 +625,20 @@ def pseudo_replay(inputs, clause):
         failed.append({'clause': 'sample_and_site'})
     if tags.get('RX') != m.umi or tags.get('MI') != 'AAAA' + m.umi:
         failed.append({'clause': 'umi_barcode_and_molecule_identifier'})
+    # second molecule: records without UMI (RX tag absent) - the counts are written all the same
+    def seg_noumi(name):
+        s2 = seg(name)
+        s2.set_tag('RX', None)
+        return s2
+    m2 = Mol(Fragment([seg_noumi('n0'), None]))
+    m2.add_fragment(Fragment([seg_noumi('n1'), None]))
+    m2.get_cut_site = lambda: ('chr1', 100, False)
+    pseudo2 = seg_noumi('pseudo2')
+    m2.write_tags_to_psuedoreads([pseudo2])
+    t2 = dict(pseudo2.get_tags())
+    obs['value']['molecule_without_umi'] = {'TF': t2.get('TF'), 'members': len(m2.fragments), 'SM': t2.get('SM')}
+    if t2.get('TF') != len(m2.fragments) + m2.overflow_fragments:
+        failed.append({'clause': 'fragment_count', 'TF': t2.get('TF'), 'expected': len(m2.fragments), 'molecule': 'without UMI'})
     return {'status': 'confirmed' if failed else 'not-reproduced', 'observed': obs, 'failed': failed}
 
 
